@@ -168,10 +168,12 @@ def _gen_prog(rng, cfg, counter_only, edge, handle_share=55):
 
     def whole_op():
         c = rng.pick(whole)
-        if c == ASSIGN:
-            ops.append([c, rng.range(0, 5), rng.below(2)])     # from an rvalue / from the caller's lvalue
-        elif c in (STORE, EXCHANGE):
-            ops.append([c, rng.range(0, 5)])
+        # TPay (payload kind 2): now and then the NaN-like value 7, which is unequal to itself
+        val = 7 if (plain(cfg) and cfg[4] == 2 and rng.chance(1, 8)) else rng.range(0, 5)
+        if c in (ASSIGN, STORE):
+            ops.append([c, val, rng.below(2)])                 # from an rvalue / from the caller's lvalue
+        elif c == EXCHANGE:
+            ops.append([c, val])
         elif c in (MODIFY, READ):
             ops.append([c, rng.range(1, 12)])                  # all functor shapes, void / value-returning
         elif c == CAS:
@@ -191,7 +193,8 @@ def _gen_prog(rng, cfg, counter_only, edge, handle_share=55):
             tr = [c for c in _acq_choices(cfg, want_s, True) if c in TRYING]
             if tr:
                 code = rng.pick(tr)
-        ops.append([code, h])
+        # the deadline forms: sometimes with `time_point::max()` ("no deadline") as the deadline
+        ops.append([code, h, rng.below(2)] if code in (TRYLOCK_UNTIL, TRYLOCK_SH_UNTIL) else [code, h])
         st[h] = ('L' if code in BLOCKING else 'T') if en else 'D'
         sh[h] = want_s
         for _ in range(rng.weighted([(2, 0), (5, 1), (2, 2)])):
@@ -308,12 +311,28 @@ def gen(rng, tier, spec):
     nt = rng.weighted([(5, 2), (5, 3), (3, 4)])
     progs = [_gen_prog(rng, cfg, counter_only, edge, 25 if pid in ('C15', 'C20') else 55) for _ in range(nt)]
     ncalls = _user_calls(cfg, progs)
-    if ncalls and rng.chance(1, 2 if pid == 'C20' else 10):
+    # a throw plan: the payload's move assignment is noexcept (it never throws), so no plan when the case uses
+    # exchange / compare_exchange (they move-assign), and every store / operator= is made from the caller's
+    # lvalue (copy assignment, which may throw)
+    moves = any(op[0] in (EXCHANGE, CAS) and available(cfg, op[0]) for p in progs for op in p)
+    if ncalls and not moves and rng.chance(1, 2 if pid == 'C20' else 10):
         ks = sorted(set(rng.below(ncalls) for _ in range(rng.range(1, 2))))
         cfg = cfg + ks
+        for p in progs:
+            for op in p:
+                if op[0] in (STORE, ASSIGN):
+                    while len(op) < 3:
+                        op.append(0)
+                    op[2] = 1
     cw = ((14, 0), (3, 2))
     kind = rng.below(6)
-    if kind >= 4:
+    if rng.chance(1, 10):
+        # first-use race: the threads' FIRST operations on the fresh wrapper interleave step by step
+        pre = []
+        for i in range(rng.range(4, 12)):
+            pre.append((i % nt if rng.chance(3, 4) else rng.below(nt), 0))
+        sched = pre + R.any_sched(rng, nt, 60, cw)
+    elif kind >= 4:
         # boundary-aimed: stop one thread right after its k-th step (inside an acquisition, between the
         # two edges of a window, between a try-lock and the use of its result), then let the others run
         first = rng.below(nt)
@@ -820,6 +839,24 @@ def mon_cas_truth(case, lines):
     return None
 
 
+def mon_timeout_overflow(case, lines):
+    """a timed acquisition handed the mutex a relative timeout that overflows when added to now()
+    (undefined behaviour inside the standard library; the instrumented mutex logs K_FAULT <mutex> 10)"""
+    for i, l in enumerate(lines):
+        if len(l) == 5 and l[1] == K['FAULT'] and l[3] == 10:
+            return 'thread %d: try_lock_for / try_lock_shared_for called with a timeout that overflows steady_clock::now() + timeout (trace line %d)' % (l[0], i)
+    return None
+
+
+def mon_exchange_returns_replaced(case, lines):
+    """(C15) exchange returns exactly the object it replaced: no object is returned by two exchanges (the driver
+    checks the tags of the trivially copyable payload and logs K_FAULT 0 11)"""
+    for i, l in enumerate(lines):
+        if len(l) == 5 and l[1] == K['FAULT'] and l[3] == 11:
+            return 'thread %d: exchange returned an object that an earlier exchange had already returned (trace line %d)' % (l[0], i)
+    return None
+
+
 MONITORS = {
     'window_fault': mon_window_fault, 'lost_update': mon_lost_update, 'handle_truth': mon_handle_truth,
     'try_blocks': mon_try_blocks, 'release_balance': mon_release_balance, 'deadlock': mon_deadlock,
@@ -827,5 +864,5 @@ MONITORS = {
     'rw_overlap': mon_rw_overlap, 'reader_blocked': mon_reader_blocked,
     'linearizable': mon_linearizable, 'torn_load': mon_torn_load,
     'whole_object_op_unlocked': mon_whole_object_op_unlocked, 'unexpected_exception': mon_unexpected_exception,
-    'writer_lock_mode': mon_writer_lock_mode, 'assign_steals_source': mon_assign_steals_source, 'cas_truth': mon_cas_truth,
+    'exchange_returns_replaced': mon_exchange_returns_replaced, 'timeout_overflow': mon_timeout_overflow, 'writer_lock_mode': mon_writer_lock_mode, 'assign_steals_source': mon_assign_steals_source, 'cas_truth': mon_cas_truth,
 }
